@@ -15,6 +15,9 @@ READY = True
 RULE = ('cases = (active level 0..6, prefix size 0..80, 0..4 groups (levels 0..5, captions incl. empty) x 0..6 options: names 1..60 bytes, '
         'alias/no alias, negatable, level 0..5, flag or string value, argument name absent/empty/1..40 bytes, implicit value, default '
         '(command-line safe, or one of the unsafe shapes blank/quote/backslash/empty), description 0..200 bytes with % sequences); '
+        '35 % of the contexts are put together with 1..3 adds that are split or REFUSED in between (a piece of a group ending in an option whose long name or alias '
+        'clashes with an option registered earlier + 0..3 further options; DuplicateOption caught, remaining pieces/groups added afterwards): the context must '
+        'list exactly the options it registered; '
         'non-trivial = at least one option is visible at the active level; distinct = distinct case tuples')
 TRUSTED_BASE = ['sprintf / vector<char> / std::string are modelled (sprintf: the four directives that occur, "write k bytes and a NUL")',
                 'props/C19.py reference rendering (oracle on the implementation)']
@@ -38,6 +41,16 @@ def s2t(b):
 
 # ---------------------------------------------------------------- decoding
 def decode(c):
+    return _decode(c)[:3]
+
+
+def directives(c):
+    """the trailer behind the groups: how the harness splits the groups into pieces and which pieces end in refused options.
+    [(group, k, kind, target, ntail)]; kind 0 long-name clash, 1 alias clash, 2 plain split, 3 long-name clash + unused alias"""
+    return _decode(c)[3]
+
+
+def _decode(c):
     p = [0]
 
     def nx():
@@ -72,7 +85,13 @@ def decode(c):
                          'impstr': impl if impl else [49],
                          'dflt': dflt, 'desc': desc})
         groups.append({'cap': cap, 'level': lvl, 'opts': opts})
-    return active, prefix, groups
+    dirs = []
+    if p[0] < len(c):
+        for _ in range(nx()):
+            if p[0] >= len(c):
+                break
+            dirs.append((nx(), nx(), nx(), nx(), nx() % 5))
+    return active, prefix, groups, dirs
 
 
 def describe(c):
@@ -86,7 +105,10 @@ def describe(c):
                                                        ' implicit=%r' % s2t(o['impstr']) if o['implicit'] else '',
                                                        '' if o['dflt'] is None else ' default=%r' % s2t(o['dflt']), s2t(o['desc'])[:40]))
         out.append('group %r@%d {%s}' % (s2t(g['cap']), g['level'], '; '.join(os_)))
-    return 'level=%d prefix=%d %s' % (active, prefix, ' '.join(out))
+    dn = {0: 'refused(duplicate name of #%d)', 1: 'refused(duplicate alias of #%d)', 2: 'split', 3: 'refused(duplicate name of #%d, alias #)'}
+    ds = ['group %d after %d option(s): %s%s' % (g, k, (dn.get(kind, 'refused(duplicate name of #%d)') % t) if kind != 2 else 'split',
+                                               ' + %d more option(s)' % nt if kind != 2 else '') for g, k, kind, t, nt in directives(c)]
+    return 'level=%d prefix=%d %s%s' % (active, prefix, ' '.join(out), (' | built with: ' + '; '.join(ds) + ' (target index modulo the options registered so far)') if ds else '')
 
 
 # ---------------------------------------------------------------- reference rendering
@@ -159,6 +181,11 @@ def oracle(c, obs):
     active, prefix, groups = decode(c)
     if obs and obs[0] == -998:
         return ['harness:option-set-rejected']
+    if obs and obs[0] == -997:
+        # after an add that was refused with DuplicateOption the groups of the context (what description()/defaults() walk) list an option the
+        # context never registered (not in begin()..end() / not found by tryFind), or a refused name is known, or an add was not refused
+        # (the rest of the observation is still judged: the help text and the default command line must list the registered options only)
+        return (oracle(c, obs[1:]) + ['context-inconsistent-after-refused-add'])
     dl = min(active, LEVEL_ALL)
     pos = [0]
 
@@ -299,12 +326,13 @@ def rand_text(rnd, n, pct=True):
     return ''.join(out)[:n] if n else ''
 
 
-def gen_case(rnd, p_unsafe):
+def gen_case(rnd, p_unsafe, p_refused=False):
     active = rnd.choice([0, 0, 1, 2, 3, 4, 4, 5, 6])
     prefix = rnd.choice([0, 0, 1, 8, 20, 40, 60, 77, 78, 79, 80])
     ng = rnd.choice([0, 1, 1, 2, 2, 3, 4])
     enc = [active, prefix, ng]
     used, aliases, caps = set(), set(), set()
+    counts = []
     for g in range(ng):
         while True:
             cap = rnd.choice(['', 'Basic Options', 'G%d' % g, rand_text(rnd, rnd.randint(1, 30), False)])
@@ -314,6 +342,7 @@ def gen_case(rnd, p_unsafe):
         enc += enc_str(cap) + [rnd.choice([0, 0, 1, 2, 3, 4, 5])]
         no = rnd.choice([0, 1, 2, 3, 4, 6])
         enc += [no]
+        counts.append(no)
         for _ in range(no):
             name = rand_name(rnd, used)
             alias = 0
@@ -348,7 +377,21 @@ def gen_case(rnd, p_unsafe):
             else:
                 enc += [0]
             enc += enc_str(rand_text(rnd, rnd.choice([0, 0, 1, 2, 10, 40, 199, 200])))
+    if p_refused and ng and sum(counts):
+        # the same context, but put together with adds that are refused (DuplicateOption, caught) or split in between
+        ds = []
+        for _ in range(rnd.choice([1, 1, 2, 3])):
+            g = rnd.randrange(ng)
+            ds.append((g, rnd.randint(0, counts[g]), rnd.choice([0, 0, 1, 1, 2, 3]), rnd.randrange(64), rnd.choice([0, 1, 1, 2, 3])))
+        enc += enc_dirs(ds)
     return enc
+
+
+def enc_dirs(ds):
+    e = [len(ds)]
+    for d in ds:
+        e += list(d)
+    return e
 
 
 def gen(seed, tier):
@@ -357,7 +400,9 @@ def gen(seed, tier):
     out = [(c, {'kind': 'fixed'}) for c in FIXED]
     while len(out) < total:
         unsafe = rnd.random() < 0.15
-        out.append((gen_case(rnd, 0.5 if unsafe else 0.0), {'kind': 'random-unsafe-defaults' if unsafe else 'random-safe-defaults'}))
+        refused = rnd.random() < 0.35
+        out.append((gen_case(rnd, 0.5 if unsafe else 0.0, refused),
+                    {'kind': ('random-unsafe-defaults' if unsafe else 'random-safe-defaults') + ('-refused-adds' if refused else '')}))
     return out
 
 
@@ -380,10 +425,17 @@ FIXED = [
     [1, 0, 3] + enc_str('Main') + [0, 1] + _opt('x', level=1, dflt='1', desc='d') + enc_str('Sub') + [2, 1] + _opt('y', dflt='2', desc='d') + enc_str('Sub2') + [1, 2] + _opt('z', level=2, dflt='3', desc='d') + _opt('w', level=1, dflt='4', desc='%D'),
     # wrapping at 78 with prefix
     [0, 70, 1] + enc_str('') + [0, 3] + _opt('p', dflt='1', desc='') + _opt('q', dflt='2', desc='') + _opt('r', dflt='x' * 80, desc=''),
+    # refused adds in between (trailer: nDirectives {group k kind target ntail}): Base{alpha,beta}; Extra{gamma} + refused 'beta' + 1 more; then Extra{delta}
+    [0, 0, 2] + enc_str('Base') + [0, 2] + _opt('alpha', arg='<n>', dflt='1', desc='first [%D]') + _opt('beta', alias=98, arg='<n>', dflt='2', desc='second [%D]')
+    + enc_str('Extra') + [0, 2] + _opt('gamma', arg='<n>', dflt='3', desc='third [%D]') + _opt('delta', arg='<n>', dflt='4', desc='fourth [%D]') + [1, 1, 1, 0, 1, 1],
+    # the same with a clashing alias, a refused piece that opens a new (then empty) group, and a plain split
+    [0, 0, 3] + enc_str('Base') + [0, 2] + _opt('alpha', arg='<n>', dflt='1', desc='first [%D]') + _opt('beta', alias=98, arg='<n>', dflt='2', desc='second [%D]')
+    + enc_str('Empty') + [0, 0] + enc_str('Extra') + [0, 2] + _opt('gamma', arg='<n>', dflt='3', desc='third [%D]') + _opt('delta', arg='<n>', dflt='4', desc='fourth [%D]')
+    + [4, 1, 0, 1, 1, 2, 2, 1, 2, 0, 0, 2, 2, 3, 0, 1, 0, 1, 0, 0, 3],
 ]
 
 
-def encode(active, prefix, groups):
+def encode(active, prefix, groups, dirs=()):
     e = [active, prefix, len(groups)]
     for g in groups:
         e += [len(g['cap'])] + list(g['cap']) + [g['level'], len(g['opts'])]
@@ -392,29 +444,43 @@ def encode(active, prefix, groups):
             for x in (o['arg_raw'], o['impl_raw'], o['dflt']):
                 e += [0] if x is None else [1, len(x)] + list(x)
             e += [len(o['desc'])] + list(o['desc'])
+    if dirs:
+        e += enc_dirs(dirs)
     return e
 
 
 def shrink(case, fails):
     import copy
-    active, prefix, groups = decode(case)
-    if encode(active, prefix, groups) != list(case):
+    active, prefix, groups, dirs = _decode(case)
+    if encode(active, prefix, groups, dirs) != list(case):
         return case
     changed = True
     while changed:
         changed = False
-        if prefix and fails(encode(active, 0, groups)):
+        for di in range(len(dirs) - 1, -1, -1):
+            t = dirs[:di] + dirs[di + 1:]
+            if fails(encode(active, prefix, groups, t)):
+                dirs, changed = t, True
+        for di, d in enumerate(dirs):
+            if d[4] > 1:
+                t = list(dirs)
+                t[di] = d[:4] + (1,)
+                if fails(encode(active, prefix, groups, t)):
+                    dirs, changed = t, True
+        if prefix and fails(encode(active, 0, groups, dirs)):
             prefix, changed = 0, True
         for gi in range(len(groups) - 1, 0, -1):          # keep group 0 (it is special)
             t = groups[:gi] + groups[gi + 1:]
-            if fails(encode(active, prefix, t)):
-                groups, changed = t, True
+            td = [((g - 1 if g > gi else g),) + tuple(r) for g, *r in dirs if g != gi]
+            if fails(encode(active, prefix, t, td)):
+                groups, dirs, changed = t, td, True
         for gi in range(len(groups)):
             for oi in range(len(groups[gi]['opts']) - 1, -1, -1):
                 t = copy.deepcopy(groups)
                 del t[gi]['opts'][oi]
-                if fails(encode(active, prefix, t)):
-                    groups, changed = t, True
+                td = [(g, (k - 1 if (g == gi and k > oi) else k)) + tuple(r) for g, k, *r in dirs]
+                if fails(encode(active, prefix, t, td)):
+                    groups, dirs, changed = t, td, True
         for gi in range(len(groups)):
             for oi in range(len(groups[gi]['opts'])):
                 for fld, val in (('desc', []), ('impl_raw', None), ('arg_raw', None), ('alias', 0), ('neg', False)):
@@ -422,10 +488,10 @@ def shrink(case, fails):
                         continue
                     t = copy.deepcopy(groups)
                     t[gi]['opts'][oi][fld] = val
-                    if fails(encode(active, prefix, t)):
+                    if fails(encode(active, prefix, t, dirs)):
                         groups, changed = t, True
-    return encode(active, prefix, groups)
+    return encode(active, prefix, groups, dirs)
 
 
 def mutate(case, rnd):
-    return [gen_case(rnd, 0.0) for _ in range(40)]
+    return [gen_case(rnd, 0.0, rnd.random() < 0.35) for _ in range(40)]
